@@ -1,0 +1,56 @@
+//go:build verif
+
+package monoid
+
+// Contracts for monoid.MergeSeq / MergeSlice (C11), checked by /verif/govc: Combine is concatenation (length is
+// the sum, the left operand is the prefix, the right operand the suffix), Empty() has no elements; associativity
+// and the two identities are stated elementwise (index i) over the real Combine, which runs fp.Seq.Concat
+// (cut at its loop invariant, see /repo/verif_contracts_seq.go).
+
+//@ lemma mergeSeqDef[T any](a, b fp.Seq[T], i int)
+//@   prop C11
+//@   ensures len(MergeSeq[T]().Combine(a, b)) == len(a)+len(b)
+//@   tag length
+//@   ensures 0 <= i && i < len(a) ==> Eq(MergeSeq[T]().Combine(a, b)[i], a[i])
+//@   tag prefixIsLeft
+//@   ensures 0 <= i && i < len(b) ==> Eq(MergeSeq[T]().Combine(a, b)[len(a)+i], b[i])
+//@   tag suffixIsRight
+//@   ensures len(MergeSeq[T]().Empty()) == 0
+//@   tag emptyIsEmpty
+//
+//@ lemma mergeSeqLaws[T any](a, b, c fp.Seq[T], i int)
+//@   prop C11
+//@   ensures len(MergeSeq[T]().Combine(MergeSeq[T]().Empty(), a)) == len(a) && (0 <= i && i < len(a) ==> Eq(MergeSeq[T]().Combine(MergeSeq[T]().Empty(), a)[i], a[i]))
+//@   tag leftIdentity
+//@   ensures len(MergeSeq[T]().Combine(a, MergeSeq[T]().Empty())) == len(a) && (0 <= i && i < len(a) ==> Eq(MergeSeq[T]().Combine(a, MergeSeq[T]().Empty())[i], a[i]))
+//@   tag rightIdentity
+//@   ensures len(MergeSeq[T]().Combine(MergeSeq[T]().Combine(a, b), c)) == len(MergeSeq[T]().Combine(a, MergeSeq[T]().Combine(b, c)))
+//@   tag assocLength
+//@   ensures 0 <= i && i < len(a)+len(b)+len(c) ==> Eq(MergeSeq[T]().Combine(MergeSeq[T]().Combine(a, b), c)[i], MergeSeq[T]().Combine(a, MergeSeq[T]().Combine(b, c))[i])
+//@   tag assocElements
+//
+//@ lemma mergeSliceDef[T any](a, b []T, i int)
+//@   prop C11
+//@   ensures len(MergeSlice[T]().Combine(a, b)) == len(a)+len(b)
+//@   tag length
+//@   ensures 0 <= i && i < len(a) ==> Eq(MergeSlice[T]().Combine(a, b)[i], a[i])
+//@   tag prefixIsLeft
+//@   ensures 0 <= i && i < len(b) ==> Eq(MergeSlice[T]().Combine(a, b)[len(a)+i], b[i])
+//@   tag suffixIsRight
+//@   ensures len(MergeSlice[T]().Empty()) == 0
+//@   tag emptyIsEmpty
+//
+//@ lemma mergeSliceLaws[T any](a, b, c []T, i int)
+//@   prop C11
+//@   ensures len(MergeSlice[T]().Combine(MergeSlice[T]().Empty(), a)) == len(a) && (0 <= i && i < len(a) ==> Eq(MergeSlice[T]().Combine(MergeSlice[T]().Empty(), a)[i], a[i]))
+//@   tag leftIdentity
+//@   ensures len(MergeSlice[T]().Combine(a, MergeSlice[T]().Empty())) == len(a) && (0 <= i && i < len(a) ==> Eq(MergeSlice[T]().Combine(a, MergeSlice[T]().Empty())[i], a[i]))
+//@   tag rightIdentity
+//@   ensures len(MergeSlice[T]().Combine(MergeSlice[T]().Combine(a, b), c)) == len(MergeSlice[T]().Combine(a, MergeSlice[T]().Combine(b, c)))
+//@   tag assocLength
+//
+//@ lemma mergeSliceAssocElements[T any](a, b, c []T, i int)
+//@   prop C11
+//@   option tier=thorough timeout=120
+//@   ensures 0 <= i && i < len(a)+len(b)+len(c) ==> Eq(MergeSlice[T]().Combine(MergeSlice[T]().Combine(a, b), c)[i], MergeSlice[T]().Combine(a, MergeSlice[T]().Combine(b, c))[i])
+//@   tag assocElements
